@@ -2,12 +2,15 @@ mod k1;
 mod k2;
 mod etypes;
 mod fp;
+mod guard;
+mod smem;
 mod k3;
 mod k4;
 mod tree;
 mod k5;
 mod k6;
 mod k7;
+mod k9;
 mod inputs;
 mod planners;
 mod refdft;
@@ -16,6 +19,7 @@ mod real;
 mod s06;
 mod s07;
 mod s09;
+mod s10;
 mod s14;
 mod report;
 mod s04;
@@ -38,10 +42,15 @@ fn main() {
         "k5" => k5::run(rest),
         "k6" => k6::run(rest),
         "k7" => k7::run(rest),
+        "k9" => k9::run(rest),
         "s04" => s04::run(rest),
         "s06" => s06::run(rest),
         "s07" => s07::run(rest),
         "s09" => s09::run(rest),
+        "s10" => s10::run(rest),
+        "s08" => smem::s08(rest),
+        "s15" => smem::s15(rest),
+        "s03" => smem::s03(rest),
         "s14" => s14::run(rest),
         "snum" => snum::run(rest),
         other => {
